@@ -177,14 +177,20 @@ let decode_lines (ser : string) : R.aline list =
                  { R.a_owner = o; R.a_ttl = ttl; R.a_class = c; R.a_type = t; R.a_rdata = d })
     | 1 -> R.LBlank (eol ())
     | 2 -> let l = lst bl in let s = sep () in let nc = nch () in let ls = labels () in let e = eol () in R.LOrigin (l, s, nc, ls, e)
+    | 4 -> let l = lst bl in let s = sep () in let pc = sch () in let path = by () in
+      let org = (match int () with 0 -> None | _ -> let s2 = sep () in let nc = nch () in let ls = labels () in Some ((s2, nc), ls)) in
+      let e = eol () in R.LInclude (l, s, pc, path, org, e)
     | _ -> let l = lst bl in let s = sep () in let ic = ich () in let raw = n () in let e = eol () in R.LTtl (l, s, ic, raw, e) in
   lst line
 
-let show_denoted (items : (BinNums.coq_N * R.arec) list) =
-  let one (ln, r) =
-    Printf.sprintf "R%d o=%s/%d t=%d c=%d y=%d d=%s v=ok" (int_of_n ln) (hex (NameWireS.wire_of r.R.a_owner))
-      (Stdlib.List.length r.R.a_owner + 1) (int_of_n r.R.a_ttl) (int_of_n r.R.a_class) (int_of_n r.R.a_type)
-      (hex (R.rdata_wire r.R.a_rdata)) in
+let show_denoted (items : (BinNums.coq_N * R.aitem) list) =
+  let nm ls = Printf.sprintf "%s/%d" (hex (NameWireS.wire_of ls)) (Stdlib.List.length ls + 1) in
+  let one (ln, it) = match it with
+    | R.IRecord r ->
+      Printf.sprintf "R%d o=%s t=%d c=%d y=%d d=%s v=ok" (int_of_n ln) (nm r.R.a_owner)
+        (int_of_n r.R.a_ttl) (int_of_n r.R.a_class) (int_of_n r.R.a_type) (hex (R.rdata_wire r.R.a_rdata))
+    | R.IInclude (path, o) ->
+      Printf.sprintf "I%d p=%s o=%s" (int_of_n ln) (hex path) (match o with Some ls -> nm ls | None -> "none") in
   String.concat " ; " (Stdlib.List.map one items @ ["after=0"])
 
 let run_zrc file expected ser =
